@@ -1537,6 +1537,67 @@ theorem chain_new_html (lower : String → String) :
   simp only [headerValue, List.foldl_nil, hfm fs vs h]
   split <;> rfl
 
+/-! ### the Content-Type gate of `FilterBodyAction::new` -/
+
+theorem stage_new_allowed {D E : Type} (f : BodyFilter) (ct : Option String) (h : htmlAllowed ct = true) :
+    (Stage.new f ct : Option (Stage D E)) = Stage.new f none := by
+  cases f with
+  | html a p s' v =>
+    have h0 : htmlAllowed none = true := rfl
+    simp only [Stage.new, h, h0]
+  | text a c => rfl
+
+/-- the gate is open (no Content-Type header, or one whose lower-cased value contains `text/html`) and there is no
+Content-Encoding header: the chain is the one built without headers -/
+theorem chain_new_gate_open {D E : Type} (codec : Codec D E) (lower : String → String) (fs : List BodyFilter)
+    (headers : List (String × String))
+    (hct : htmlAllowed (headerValue lower Rio.Consts.filterHeaderContentType headers) = true)
+    (hce : headerValue lower Rio.Consts.filterHeaderContentEncoding headers = none) :
+    (Chain.new codec lower fs headers : Chain D E) = Chain.new codec lower fs [] := by
+  have hl : (fs.filterMap fun f => (Stage.new f (headerValue lower Rio.Consts.filterHeaderContentType headers) :
+      Option (Stage D E))) = fs.filterMap fun f => (Stage.new f none : Option (Stage D E)) := by
+    congr 1
+    funext f
+    exact stage_new_allowed f _ hct
+  have hn : ∀ name, headerValue lower name [] = none := fun _ => rfl
+  unfold Chain.new
+  simp only [hce, hl, hn]
+
+section
+variable {D E : Type} (codec : Codec D E)
+
+theorem feed_empty_chain : ∀ (chunks : List Bytes),
+    (({ items := [] } : Chain D E).feed tk ev codec chunks) = ({ items := [] }, chunks)
+  | [] => rfl
+  | x :: xs => by
+    simp only [Chain.feed, Chain.filter, doFilter, Bool.false_eq_true, if_false, feed_empty_chain xs]
+
+/-- a chain without stages copies its input -/
+theorem run_empty_chain (chunks : List Bytes) :
+    (({ items := [] } : Chain D E).run tk ev codec chunks) = chunks.flatten := by
+  simp [Chain.run, Chain.runOuts, feed_empty_chain, Chain.end, doEnd]
+
+/-- the gate is closed (a Content-Type whose lower-cased value does not contain `text/html`): html filters build no
+stage and the body passes unchanged, whatever the chunking and the encoding -/
+theorem chain_gate_closed (lower : String → String) (fs : List BodyFilter) (headers : List (String × String))
+    (hfs : ∀ f ∈ fs, ∃ a p s v, f = BodyFilter.html a p s v)
+    (hct : htmlAllowed (headerValue lower Rio.Consts.filterHeaderContentType headers) = false)
+    (chunks : List Bytes) :
+    (Chain.new codec lower fs headers : Chain D E).run tk ev codec chunks = chunks.flatten := by
+  have hl : (fs.filterMap fun f => (Stage.new f (headerValue lower Rio.Consts.filterHeaderContentType headers) :
+      Option (Stage D E))) = [] := by
+    rw [List.filterMap_eq_nil_iff]
+    intro f hf
+    obtain ⟨a, p, s', v, rfl⟩ := hfs f hf
+    simp [Stage.new, hct]
+  have : (Chain.new codec lower fs headers : Chain D E) = { items := [] } := by
+    unfold Chain.new
+    simp only [hl, List.isEmpty_nil, if_true]
+  rw [this]
+  exact run_empty_chain tk ev codec chunks
+
+end
+
 /-! ### from the token-level specifications to `StageOK` -/
 
 /-- the stream tokenizer (fresh stage: empty context) sees the serialised document as its token list, leaves nothing,
